@@ -86,6 +86,11 @@ def c11_items(t, rnd):
                 body = "TITLE=" + "".join(rnd.choice(["a", "é", "語", "=", " ", "😀"]) for _ in range(n))
                 fields.append(B(body) if n else rnd.choice([B(""), B("X=")]))
             add("comment", [si(), {"kind": "comment", "vendor": B(rnd.choice(["", "v", "référence libFLAC 1.4.3 語"])), "fields": fields}])
+    # comment fields that an accessor interprets (channel mask): well-formed, malformed, non-ASCII at every small offset
+    for val in ("0x3F", "0X3F", "0x0", "0x", "0", "x", "", "0xZZ", "0x100000000", "0xFFFFFFFF", "3F", " 0x3F", "0x 3F", "0é3", "€1", "0x€", "é", "00é",
+                "0xé", "語0x3", "0x" + "F" * 40, "-0x1", "0x-1", "0x+1"):
+        for key in ("WAVEFORMATEXTENSIBLE_CHANNEL_MASK", "waveformatextensible_channel_mask"):
+            add("comment-channel-mask", [si(channels=rnd.choice([1, 2, 6, 8])), {"kind": "comment", "vendor": B("v"), "fields": [B("TITLE=x"), B(key + "=" + val)]}])
     # pictures
     for pt in range(0, 22):
         add("picture-type-%d" % pt, [si(), {"kind": "picture", "ptype": pt, "mime": B(rnd.choice(["", "image/png", "-->"])), "desc": B(rnd.choice(["", "cover", "語" * 5])),
